@@ -639,6 +639,55 @@ def _inline_closures(node: ast.FunctionDef, changed: List[str]) -> None:
             if len(b) == 1 and isinstance(b[0], ast.Return) and b[0].value is not None and \
                     not any(isinstance(n, ast.Name) and n.id == st.name for n in ast.walk(b[0])):
                 closures[st.name] = c
+    # procedure closures: `def f(a): nonlocal x, y; <simple statements>` called as a statement `f(arg)` — the body is put in
+    # place of the call (a `nonlocal` name is the enclosing function's own local: exactly what inlining means)
+    procs = {}
+    for st in node.body:
+        if isinstance(st, ast.FunctionDef) and st.name not in closures and not st.decorator_list and not st.args.vararg and \
+                not st.args.kwarg and not st.args.kwonlyargs and not st.args.defaults:
+            b = _body_wo_doc(st)
+            if b and isinstance(b[-1], ast.Return) and b[-1].value is None:
+                b = b[:-1]
+            if b and not any(isinstance(n, (ast.Return, ast.Yield, ast.YieldFrom, ast.FunctionDef, ast.Lambda, ast.Global)) for x in b for n in ast.walk(x)) and \
+                    not any(isinstance(n, ast.Name) and n.id == st.name for x in b for n in ast.walk(x)):
+                procs[st.name] = (st, b)
+    for n in ast.walk(node):
+        if isinstance(n, ast.Name) and n.id in procs and isinstance(n.ctx, ast.Store):
+            procs.pop(n.id, None)
+    if procs:
+        outer_names = {n.id for st in node.body if not isinstance(st, ast.FunctionDef) for n in ast.walk(st) if isinstance(n, ast.Name)}
+        for block in _blocks(node):
+            i = 0
+            while i < len(block):
+                st = block[i]
+                c = st.value if isinstance(st, ast.Expr) else None
+                if isinstance(c, ast.Call) and isinstance(c.func, ast.Name) and c.func.id in procs and not c.keywords and \
+                        not any(isinstance(a, ast.Starred) for a in c.args):
+                    fdef, body = procs[c.func.id]
+                    ps = [a.arg for a in fdef.args.args]
+                    if len(ps) == len(c.args):
+                        nl = {nm for x in body if isinstance(x, ast.Nonlocal) for nm in x.names}
+                        own = {n.id for x in body for n in ast.walk(x) if isinstance(n, ast.Name) and isinstance(n.ctx, ast.Store)} - nl
+                        ren = {}
+                        pre = []
+                        for p_, a_ in zip(ps, c.args):
+                            nm = p_ if p_ not in outer_names else f"{p_}__{c.func.id}{next(_counter)}"
+                            if nm != p_:
+                                ren[p_] = ast.Name(id=nm, ctx=ast.Load())
+                            pre.append(ast.fix_missing_locations(ast.copy_location(
+                                ast.Assign(targets=[ast.Name(id=nm, ctx=ast.Store())], value=copy.deepcopy(a_)), st)))
+                        for v in own:
+                            if v in outer_names and v not in ps:
+                                ren[v] = ast.Name(id=f"{v}__{c.func.id}{next(_counter)}", ctx=ast.Load())
+                        new_body = [_Rename(ren).visit(copy.deepcopy(x)) for x in body if not isinstance(x, ast.Nonlocal)]
+                        block[i:i + 1] = pre + new_body
+                        changed.append("proc:" + c.func.id)
+                        i += len(pre) + len(new_body)
+                        continue
+                i += 1
+        for name in list(procs):
+            if not any(isinstance(n, ast.Name) and n.id == name and isinstance(n.ctx, ast.Load) for n in ast.walk(node)):
+                node.body = [st for st in node.body if not (isinstance(st, ast.FunctionDef) and st.name == name)]
     if not closures:
         return
     # a closure name that is re-bound or passed around as a value is left alone
